@@ -191,6 +191,12 @@ public:
   T& append(const T& value)
   {
     usize size = _end.item - _begin.item;
+    if(size + 1 > _capacity)
+    { // reserve() replaces the storage, which value may be an element of
+      const T copy(value);
+      reserve(size + 1);
+      return append(copy);
+    }
     reserve(size + 1);
     T* item = _end.item;
 #ifdef VERIFY
